@@ -221,7 +221,8 @@ def run(ctx: core.Ctx) -> int:
                         "comment": "a comment" if rnd.random() < 0.3 else None, "layout": "nextline" if (j + k) % 5 == 2 else "inline"})
         if j % 10 == 7:      # a later paragraph repeats an earlier, non-adjacent one
             pgs = [pgs[0], {"patterns": ["src/*", "tools/gen*.py"], "cop": ["2015 Bob"], "lic": "0BSD"},
-                   {"patterns": ["src/sub/*", "tools/genx.py"], "cop": pgs[0]["cop"], "lic": pgs[0]["lic"], "comment": pgs[0].get("comment")}]
+                   {"patterns": ["src/sub/*", "tools/genx.py"], "cop": pgs[0]["cop"], "lic": pgs[0]["lic"], "comment": pgs[0].get("comment"),
+                    "layout": pgs[0].get("layout", "inline")}]
         pcases.append({"tid": len(pcases) + 1, "paragraphs": pgs, "has_dep5": True, "fault": "none", "seed": ctx.seed + j,
                        "cwd": "src" if j % 4 == 0 else None, "header_fields": j % 6 == 1,
                        "label": json.dumps({"paragraphs": [[pg["patterns"], pg["lic"], pg.get("layout", "inline")] for pg in pgs], "header_fields": j % 6 == 1})})
